@@ -130,6 +130,27 @@ func e2eC17(repo, dir string, vals map[string]string) ([]string, error) {
 	if d := sameTree(before, e.tree()); len(d) > 0 || code != 1 {
 		bad = append(bad, "failing run (bad first) changed files or exit code: "+strings.Join(d, ", "))
 	}
+	// an output file that cannot be written (a regular file stands where its directory belongs) fails the run,
+	// whichever of the output files it is
+	for _, blocked := range []string{"wa", "wb", "wc"} {
+		for _, d := range []string{"wa", "wb", "wc"} {
+			os.RemoveAll(filepath.Join(e.dir, "wr", d))
+			e.write("wr/"+d+"/in.go", strings.Replace(e2eGood, "package good", "package "+d, 1))
+		}
+		e.write("wr/"+blocked+"/generated", "a regular file\n")
+		code, _, se := e.run("gen", "./wr/...")
+		if code != 1 || strings.TrimSpace(se) == "" {
+			bad = append(bad, fmt.Sprintf("run whose output file %s/generated/generated.go cannot be written exits %d (want 1 and a diagnostic)", blocked, code))
+		}
+	}
+	os.RemoveAll(filepath.Join(e.dir, "wr"))
+	// unusable settings on the second of two declared methods for one pair (they differ in their contexts)
+	e.write("twosig/in.go", "package twosig\n\n// goverter:converter\n// goverter:arg:context:regex ^ctx\ntype C interface {\n\tA(source int, ctxA CtxA) int\n\t// goverter:ignore Nope\n\tB(source int, ctxB CtxB) int\n}\ntype CtxA struct{}\ntype CtxB struct{}\n")
+	code, _, se = e.run("gen", "./twosig")
+	if code != 1 || strings.TrimSpace(se) == "" {
+		bad = append(bad, fmt.Sprintf("field settings on the second of two declared int->int methods (different contexts) exit %d, want 1 and a diagnostic", code))
+	}
+	os.RemoveAll(filepath.Join(e.dir, "twosig"))
 	// a pattern that matches no loadable package fails the whole run
 	b1 := e.tree()
 	code, _, se = e.run("gen", "./good", "./doesnotexist")
@@ -287,6 +308,25 @@ func e2eC16(repo, dir string, vals map[string]string) ([]string, error) {
 	if code != 0 || strings.Contains(string(b), "//go:build") {
 		bad = append(bad, "empty -output-constraint still emits a constraint line")
 	}
+	// both switched off: no tag for loading, no constraint line
+	e.write("notagsboth/in.go", strings.Replace(e2eGood, "package good", "package notagsboth", 1))
+	code, _, se = e.run("gen", "-build-tags", "", "-output-constraint", "", "./notagsboth")
+	b, _ = os.ReadFile(filepath.Join(e.dir, "notagsboth/generated/generated.go"))
+	if code != 0 || strings.Contains(string(b), "//go:build") {
+		bad = append(bad, "-build-tags \"\" -output-constraint \"\" still emits a constraint line: "+firstLine(se))
+	}
+	os.RemoveAll(filepath.Join(e.dir, "notagsboth"))
+	// the tags are used for every form of package pattern: relative, import path, absolute directory (with and without /...)
+	e.write("abs/in.go", strings.Replace(e2eGood, "package good", "package abs", 1))
+	e.write("abs/use.go", "//go:build !goverter\n\npackage abs\n\nimport \"e2e/abs/generated\"\n\nvar _ C = &generated.CImpl{}\n")
+	for _, pat := range []string{"./abs", "e2e/abs", filepath.Join(e.dir, "abs"), filepath.Join(e.dir, "abs") + "/..."} {
+		os.RemoveAll(filepath.Join(e.dir, "abs/generated"))
+		code, _, se = e.run("gen", pat)
+		if _, err := os.Stat(filepath.Join(e.dir, "abs/generated/generated.go")); code != 0 || err != nil {
+			bad = append(bad, "pattern "+strings.Replace(pat, e.dir, "<abs>", 1)+": files behind the output constraint are not hidden while loading: "+firstLine(se))
+		}
+	}
+	os.RemoveAll(filepath.Join(e.dir, "abs"))
 	// constraints with various first characters (and the one from the counterexample) are emitted verbatim
 	constraints := []string{"linux || !goverter", "go1.18 && !goverter", "unix", "d", "!goverter"}
 	if c := vals["constraint"]; c != "" && isPrintable(c) {
@@ -564,6 +604,33 @@ func e2eC15(repo, dir string, vals map[string]string) ([]string, error) {
 	if code != 1 {
 		bad = append(bad, "same file with the same package path but different package names accepted")
 	}
+	// a converter declared in a file that imports "C": the declaring file is the user's file (the parsed file is the
+	// cgo-processed copy in the build cache, its //line directives point back), the output lands next to it
+	if _, err := exec.LookPath("cc"); err == nil {
+		if out, err := exec.Command("go", "env", "CGO_ENABLED").Output(); err == nil && strings.TrimSpace(string(out)) == "1" {
+			e.write("cg/in.go", "package cg\n\n// #include <stdlib.h>\nimport \"C\"\n\nvar _ = C.size_t(0)\n\n// goverter:converter\ntype C2 interface {\n\tConvert(source In) Out\n}\ntype In struct{ A int }\ntype Out struct{ A int }\n")
+			code, _, se = e.run("gen", "./cg")
+			if _, err := os.Stat(filepath.Join(e.dir, "cg/generated/generated.go")); code != 0 || err != nil {
+				bad = append(bad, "converter declared in a cgo file: ./generated/generated.go is not written next to the source: "+firstLine(se))
+			}
+			os.RemoveAll(filepath.Join(e.dir, "cg"))
+		}
+	}
+	// a package name equal to the directory name is still a name: the unnamed converter gets the normalised one
+	e.write("c4/in.go", "package c4\n\n// goverter:converter\n// goverter:output:file ../my_out/gen.go\n// goverter:output:package e2e/my_out:my_out\ntype C interface {\n\tConvert(source In) Out\n}\n\n// goverter:converter\n// goverter:output:file ../my_out/gen.go\ntype D interface {\n\tConvert(source In) Out\n}\ntype In struct{ A int }\ntype Out struct{ A int }\n")
+	code, _, _ = e.run("gen", "./c4")
+	if code != 1 {
+		bad = append(bad, "same file, package e2e/my_out:my_out (package my_out) and no package (package myout) accepted")
+	}
+	os.RemoveAll(filepath.Join(e.dir, "my_out"))
+	// the name given by output:package survives an output:file line below it (variables block and interface)
+	e.write("ord/in.go", "package ord\n\n// goverter:variables\n// goverter:output:package :custom\n// goverter:output:file ../ordout/conv.go\nvar (\n\tConvert func(source In) Out\n)\n\n// goverter:converter\n// goverter:output:package :custom2\n// goverter:output:file ../ordout2/conv.go\ntype C interface {\n\tConvert(source In) Out\n}\ntype In struct{ A int }\ntype Out struct{ A int }\n")
+	code, _, se = e.run("gen", "./ord")
+	o1, _ := os.ReadFile(filepath.Join(e.dir, "ordout/conv.go"))
+	o2, _ := os.ReadFile(filepath.Join(e.dir, "ordout2/conv.go"))
+	if code != 0 || !strings.Contains(string(o1), "\npackage custom\n") || !strings.Contains(string(o2), "\npackage custom2\n") {
+		bad = append(bad, "output:package :name written above output:file is forgotten: "+firstLine(se))
+	}
 	bad = append(bad, e2eExistingPackage(e)...)
 	// the same relative output:file (and the same explicit package) written in two directories names two files
 	for _, d := range []string{"rel1", "rel2"} {
@@ -604,6 +671,7 @@ func e2eC15(repo, dir string, vals map[string]string) ([]string, error) {
 		bad = append(bad, "variables blocks in the second and third file of a package: mapping.gen.go / z_more.gen.go missing or a_types.gen.go written: "+firstLine(se))
 	}
 	os.RemoveAll(filepath.Join(e.dir, "vf"))
+	bad = append(bad, e2eTwoVariableBlocks(e)...)
 	// two spellings of one absolute output:file select one file: both converters are in it
 	abs1, abs2 := filepath.Join(e.dir, "ab/gen")+"/../gen/g.go", filepath.Join(e.dir, "ab/gen/g.go")
 	e.write("ab/in.go", "package ab\n\n// goverter:converter\n// goverter:output:file "+abs1+"\n// goverter:output:package e2e/ab/gen\ntype A interface {\n\tConvert(source In) Out\n}\n\n// goverter:converter\n// goverter:output:file "+abs2+"\n// goverter:output:package e2e/ab/gen\ntype B interface {\n\tConvert(source In) Out\n}\ntype In struct{ A int }\ntype Out struct{ A int }\n")
@@ -668,6 +736,22 @@ func e2eC15(repo, dir string, vals map[string]string) ([]string, error) {
 	return bad, nil
 }
 
+// e2eTwoVariableBlocks: two variables blocks in two files of one package that need a helper for the same nested pair:
+// helper names are unique within the package, it compiles.
+func e2eTwoVariableBlocks(e *e2eEnv) []string {
+	var bad []string
+	e.write("tv/types.go", "package tv\n\ntype Inner struct{ V int }\ntype OutInner struct{ V int }\ntype A struct{ I Inner }\ntype AO struct{ I OutInner }\ntype B struct {\n\tI Inner\n\tN int\n}\ntype BO struct {\n\tI OutInner\n\tN int\n}\n")
+	e.write("tv/a.go", "package tv\n\n// goverter:variables\nvar (\n\tConvA func(source A) AO\n)\n")
+	e.write("tv/b.go", "package tv\n\n// goverter:variables\nvar (\n\tConvB func(source B) BO\n)\n")
+	if code, _, se := e.run("gen", "./tv"); code != 0 {
+		bad = append(bad, "two variables blocks in two files: run fails: "+firstLine(se))
+	} else if out, err := e.goBuild("./tv/..."); err != nil {
+		bad = append(bad, "two variables blocks in two files of one package needing a helper for the same pair: the package does not compile: "+firstLine(out))
+	}
+	os.RemoveAll(filepath.Join(e.dir, "tv"))
+	return bad
+}
+
 // e2eC09: regenerating over stale / longer / broken previous output gives the bytes of a clean generation,
 // and repeated runs in fresh processes give identical bytes and diagnostics.
 func e2eC09(repo, dir string, vals map[string]string) ([]string, error) {
@@ -725,6 +809,30 @@ func e2eC09(repo, dir string, vals map[string]string) ([]string, error) {
 		bad = append(bad, fmt.Sprintf("%d different diagnostics for one set of two faulty packages named alike, depending on the pattern order", len(souts)))
 	}
 	os.RemoveAll(filepath.Join(e.dir, "same"))
+	// two packages that do not compile: the reported one does not depend on the order of the patterns
+	for _, v := range []string{"alpha", "beta"} {
+		e.write("ce/"+v+"/in.go", "package "+v+"\n\n// goverter:converter\ntype C interface {\n\tConvert(source In) Out\n}\ntype In struct{ A int }\ntype Out struct{ A Missing"+v+" }\n")
+	}
+	couts := map[string]bool{}
+	for _, pats := range [][]string{{"./ce/alpha", "./ce/beta"}, {"./ce/beta", "./ce/alpha"}, {"./ce/beta", "./ce/...", "./ce/alpha"}, {"./ce/..."}} {
+		code, _, se := e.run(append([]string{"gen"}, pats...)...)
+		couts[fmt.Sprintf("%d|%s", code, se)] = true
+	}
+	if len(couts) > 1 {
+		bad = append(bad, fmt.Sprintf("%d different diagnostics for one set of two packages that do not compile, depending on the pattern order", len(couts)))
+	}
+	os.RemoveAll(filepath.Join(e.dir, "ce"))
+	// the files written do not depend on where the sources live: a directory named like a Go file
+	for _, d := range []string{"reloc/plain", "reloc/nats.go", "reloc/x.gopher"} {
+		src := "package conv\n\n// goverter:variables\nvar (\n\tConvert func(source In) Out\n)\n\ntype In struct{ A int }\ntype Out struct{ A int }\n"
+		e.write(d+"/conv.go", src)
+		code, _, se := e.run("gen", "./"+d)
+		now, _ := os.ReadFile(filepath.Join(e.dir, d, "conv.go"))
+		if _, err := os.Stat(filepath.Join(e.dir, d, "conv.gen.go")); code != 0 || err != nil || string(now) != src {
+			bad = append(bad, "variables block in directory "+d+": conv.gen.go not written or conv.go touched: "+firstLine(se))
+		}
+	}
+	os.RemoveAll(filepath.Join(e.dir, "reloc"))
 	// a wildcard pattern followed by a sibling directory whose name starts alike: the same files in both orders
 	for _, d := range []string{"pc/conv", "pc/conv/sub", "pc/convx"} {
 		e.write(d+"/in.go", "package "+filepath.Base(d)+"\n\n// goverter:converter\ntype C interface {\n\tConvert(source In) Out\n}\ntype In struct{ A int }\ntype Out struct{ A int }\n")
@@ -763,6 +871,7 @@ func e2eC09(repo, dir string, vals map[string]string) ([]string, error) {
 		bad = append(bad, fmt.Sprintf("declared method named like the helper of a nested pair: %d different outputs in 12 processes, build: %s", len(nouts), firstLine(out)))
 	}
 	os.RemoveAll(filepath.Join(e.dir, "nm"))
+	bad = append(bad, e2eTwoVariableBlocks(e)...)
 	// several output files that cannot be rendered: the reported one must not depend on the process
 	for _, d := range []string{"ra", "rb", "rc"} {
 		e.write("rend/"+d+"/in.go", "package "+d+"\n\n// goverter:converter\n// goverter:output:raw func broken"+d+"( {\ntype C interface {\n\tConvert(source In) Out\n}\ntype In struct{ A int }\ntype Out struct{ A int }\n")
@@ -972,6 +1081,19 @@ func e2eC19(repo, dir string, vals map[string]string) ([]string, error) {
 	if code, _, se := e.run("gen", "./long"); code != 0 {
 		bad = append(bad, "a setting line after a comment line of 70000 bytes is lost: "+firstLine(se))
 	}
+	// an extend line is resolved with the settings above it, not with those below it
+	e.write("so/in.go", "package so\n\n// goverter:converter\n// goverter:extend Conv.*\n// goverter:arg:context:regex ^ctx\ntype C interface {\n\tConvert(source In) Out\n}\n\nfunc ConvTemp(v int, ctxUnit string) Celsius { return Celsius(v + 1000) }\n\ntype Celsius int\ntype In struct{ Temp int }\ntype Out struct{ Temp Celsius }\n")
+	code, _, se = e.run("gen", "./so")
+	gen, _ := os.ReadFile(filepath.Join(e.dir, "so/generated/generated.go"))
+	if code == 0 && strings.Contains(string(gen), "ConvTemp") {
+		bad = append(bad, "arg:context:regex below an extend line changes what that extend line selects")
+	}
+	e.write("so2/in.go", "package so2\n\n// goverter:converter\n// goverter:arg:context:regex ^ctx\n// goverter:extend Conv.*\ntype C interface {\n\tConvert(source In, ctxUnit string) Out\n}\n\nfunc ConvTemp(v int, ctxUnit string) Celsius { return Celsius(v + 1000) }\n\ntype Celsius int\ntype In struct{ Temp int }\ntype Out struct{ Temp Celsius }\n")
+	code, _, se = e.run("gen", "./so2")
+	gen, _ = os.ReadFile(filepath.Join(e.dir, "so2/generated/generated.go"))
+	if code != 0 || !strings.Contains(string(gen), "ConvTemp") {
+		bad = append(bad, "arg:context:regex above an extend line is not used by it: "+firstLine(se))
+	}
 	// trailing comments and detached comments are no settings
 	e.write("trail/in.go", "package trail\n\n// goverter:ignoreMissing\n\n// goverter:converter\ntype C interface {\n\tConvert(source In) Out // goverter:ignore Missing\n}\ntype In struct{ A int }\ntype Out struct{ A, Missing int }\n")
 	if code, _, _ := e.run("gen", "./trail"); code != 1 {
@@ -1062,6 +1184,31 @@ func e2eC12(repo, dir string, vals map[string]string) ([]string, error) {
 			bad = append(bad, fmt.Sprintf("method-level %s reached the generated helper of a nested pair (exit %d, helper shows %q): %s", c.setting, code, c.leakText, firstLine(se)))
 		}
 	}
+	// a long doc comment keeps its line order: of two lines for one setting the lower one wins, whatever the
+	// number of other lines around them (method and converter level)
+	{
+		fields, ignores := "", ""
+		for i := 1; i <= 11; i++ {
+			fields += fmt.Sprintf("\tF%02d int\n", i)
+			ignores += fmt.Sprintf("\t// goverter:ignore F%02d\n", i)
+		}
+		src := "package long\n\n// goverter:converter\ntype C interface {\n\t// goverter:update target\n\t// goverter:update:ignoreZeroValueField\n\t// goverter:update:ignoreZeroValueField:basic no\n" + ignores + "\tWide(source In, target *Out)\n}\ntype In struct {\n\tName string\n\tL []int\n}\ntype Out struct {\n\tName string\n\tL []int\n" + fields + "}\n"
+		e.write("long/in.go", src)
+		code, _, se := e.run("gen", "./long")
+		b, _ := os.ReadFile(filepath.Join(e.dir, "long/generated/generated.go"))
+		if code != 0 || strings.Contains(string(b), "source.Name != \"\"") || !strings.Contains(string(b), "source.L != nil") {
+			bad = append(bad, "method with 14 setting lines: update:ignoreZeroValueField followed by :basic no does not give 'nillable and struct only': "+firstLine(se))
+		}
+		convLines := ""
+		for i := 1; i <= 11; i++ {
+			convLines += fmt.Sprintf("// goverter:output:raw // filler %d\n", i)
+		}
+		src = "package longc\n\n// goverter:converter\n// goverter:extend Itoa\n// goverter:ignoreMissing\n// goverter:ignoreMissing no\n" + convLines + "type C interface {\n\tConvert(source In) (Out, error)\n}\ntype In struct{ A int }\ntype Out struct {\n\tA string\n\tMissing int\n}\nfunc Itoa(i int) (string, error) { return \"\", nil }\n"
+		e.write("longc/in.go", src)
+		if code, _, _ := e.run("gen", "./longc"); code != 1 {
+			bad = append(bad, "converter with 15 setting lines: ignoreMissing followed by ignoreMissing no is still on")
+		}
+	}
 	// a helper shared by two methods does not depend on which of them is built first
 	two := "type L struct{ Items []int }\ntype W1 struct{ V L }\ntype W1T struct{ V L }\ntype W2 struct{ V L }\ntype W2T struct{ V L }\n"
 	e.write("share/in.go", "package share\n\n// goverter:converter\ntype C interface {\n\t// goverter:skipCopySameType\n\tA(source W1) W1T\n\tB(source W2) W2T\n}\n"+two)
@@ -1073,7 +1220,28 @@ func e2eC12(repo, dir string, vals map[string]string) ([]string, error) {
 	return bad, nil
 }
 
+// e2eC13: directive texts that are patterns end in output or a diagnostic (exit 0 / 1), never in a crash.
+func e2eC13(repo, dir string, vals map[string]string) ([]string, error) {
+	e, err := newE2E(repo, dir)
+	if err != nil {
+		return nil, err
+	}
+	var bad []string
+	pats := []string{`Conv.*`, `Conv.*\Q`, `Conv.*To\QString`, `Conv.*\QA\E`, `(?i:conva.*)`, `Conv(`, `Conv[`, `Conv\`, `(?P<n>Conv.*)`, `Conv.*|`, `Conv{2,1}`, `Conv.*)(`, `.*\E`}
+	for i, p := range pats {
+		for _, line := range []string{"extend " + p, "enum:exclude " + p, "arg:context:regex " + p} {
+			e.write("pat/in.go", "package pat\n\n// goverter:converter\n// goverter:"+line+"\ntype C interface {\n\tConvert(source In) Out\n}\ntype In struct{ A int }\ntype Out struct{ A int }\n\nfunc ConvA(i int) int { return i }\nfunc ConvToString(i string) string { return i }\n")
+			code, _, se := e.run("gen", "./pat")
+			if (code != 0 && code != 1) || strings.Contains(se, "goroutine ") {
+				bad = append(bad, fmt.Sprintf("pattern %d in %q: exit %d: %s", i, line, code, firstLine(se)))
+			}
+		}
+	}
+	return bad, nil
+}
+
 var e2eScenarios = map[string]func(repo, dir string, vals map[string]string) ([]string, error){
+	"c13": e2eC13,
 	"c12": e2eC12,
 	"c06": e2eC06,
 	"c19": e2eC19,
